@@ -260,7 +260,7 @@ class Scratch:
 # --------------------------------------------------------------------------
 def parse_log(text):
     """Returns dict: counters from Z lines, probes, G events, fs events..."""
-    d = {"gc": [], "fs": [], "probes": {}, "z": {}, "faults": [], "sbrk": [], "allocs": 0}
+    d = {"gc": [], "fs": [], "probes": {}, "z": {}, "faults": [], "sbrk": [], "allocs": 0, "escapes": []}
     for ln in text.splitlines():
         if not ln:
             continue
@@ -268,6 +268,8 @@ def parse_log(text):
         k = t[0]
         if k == "A":
             d["allocs"] += 1
+        elif k == "E" and len(t) >= 3:
+            d["escapes"].append(" ".join(t[1:]))
         elif k == "G":
             d["gc"].append(tuple(int(x) for x in t[1:5]))
         elif k in "ORWSCUNM" and len(k) == 1:
